@@ -258,6 +258,18 @@ Rec ::= SEQUENCE {
 
 Bits ::= BIT STRING { first(0), last(31) } (SIZE(32))
 
+-- the same tag number in several classes, and the same tag several times, in one tag map
+Tg ::= SEQUENCE {
+    hint CHOICE { h1 [0] INTEGER, h2 [1] BOOLEAN } OPTIONAL,
+    serial [APPLICATION 5] IMPLICIT INTEGER OPTIONAL,
+    count [5] IMPLICIT INTEGER OPTIONAL,
+    priv [PRIVATE 5] IMPLICIT INTEGER OPTIONAL,
+    flag BOOLEAN,
+    again [5] IMPLICIT INTEGER OPTIONAL,
+    u5 [UNIVERSAL 5] IMPLICIT NULL,
+    last [APPLICATION 5] IMPLICIT BOOLEAN
+}
+
 Deep ::= SEQUENCE OF DeepEl
 
 DeepEl ::= SET OF CHOICE { da [0] Ratio, db [1] SEQUENCE { x Bits } }
@@ -304,6 +316,11 @@ FIXED_FAULTS = [
     ("undefined-components-of", "F6 DEFINITIONS ::= BEGIN T ::= SEQUENCE { a INTEGER, COMPONENTS OF NoSuch6 } END\n"),
     ("undefined-value-in-constraint", "F7 DEFINITIONS ::= BEGIN T ::= INTEGER (1..nosuch7) END\n"),
     ("undefined-class", "F8 DEFINITIONS ::= BEGIN T ::= SEQUENCE { a NOSUCH.&id, b BOOLEAN } END\n"),
+    ("duplicate-identifier-in-additions", "F11 DEFINITIONS ::= BEGIN T ::= SEQUENCE { id INTEGER, ..., level INTEGER (0..7), text UTF8String OPTIONAL, level BOOLEAN } END\n"),
+    ("duplicate-alternative-in-additions", "F12 DEFINITIONS AUTOMATIC TAGS ::= BEGIN T ::= CHOICE { a INTEGER, ..., b BOOLEAN, b NULL } END\n"),
+    ("duplicate-enumeration-in-additions", "F13 DEFINITIONS ::= BEGIN T ::= ENUMERATED { a, ..., b, b } END\n"),
+    ("duplicate-identifier-root-and-addition", "F14 DEFINITIONS AUTOMATIC TAGS ::= BEGIN T ::= SET { a INTEGER, b BOOLEAN, ..., a NULL } END\n"),
+    ("duplicate-identifier-not-last", "F15 DEFINITIONS ::= BEGIN T ::= SEQUENCE { a INTEGER, b BOOLEAN, a UTF8String, c NULL } END\n"),
     ("inverted-size", "F9 DEFINITIONS ::= BEGIN T ::= IA5String (SIZE(5..2)) END\n"),
     ("inverted-alphabet", "F10 DEFINITIONS ::= BEGIN T ::= IA5String (FROM(\"z\"..\"a\")) END\n"),
 ]
